@@ -1,12 +1,14 @@
 package eng
 
 import (
+	"crypto/sha1"
 	"fmt"
 	"go/constant"
 	"go/token"
 	"go/types"
 	"sort"
 	"strings"
+	"time"
 
 	"golang.org/x/tools/go/ssa"
 )
@@ -54,6 +56,8 @@ type Config struct {
 	RootFree  []*Term
 	MaxDepth  int
 	MaxStates int
+	// MaxSeconds bounds the wall-clock time of one exploration (safety valve; exceeding it is reported as a problem).
+	MaxSeconds int
 	// Classify may override the default disposition of a call.
 	Classify func(ci *CallInfo) *Disposition
 	// IntLowerBound gives assumed lower bounds of integer base terms.
@@ -87,7 +91,8 @@ type Problem struct {
 type Engine struct {
 	Cfg      Config
 	finfo    map[*ssa.Function]*FuncInfo
-	visited  map[string]bool
+	visited  map[[20]byte]bool
+	deadline time.Time
 	work     []*State
 	States   int
 	Forks    int
@@ -114,9 +119,12 @@ func New(cfg Config) *Engine {
 		cfg.MaxDepth = 4
 	}
 	if cfg.MaxStates == 0 {
-		cfg.MaxStates = 200000
+		cfg.MaxStates = 150000
 	}
-	e := &Engine{Cfg: cfg, finfo: map[*ssa.Function]*FuncInfo{}, visited: map[string]bool{},
+	if cfg.MaxSeconds == 0 {
+		cfg.MaxSeconds = 180
+	}
+	e := &Engine{Cfg: cfg, finfo: map[*ssa.Function]*FuncInfo{}, visited: map[[20]byte]bool{},
 		volatile: map[*ssa.Alloc]bool{}, allocOf: map[string]*ssa.Alloc{}, siteType: map[string]types.Type{}, Inlined: map[*ssa.Function]bool{}, SiteClass: map[string]string{}, IVStep: map[string]int64{}, StatesAt: map[string]int{}}
 	e.computeVolatile()
 	return e
@@ -269,8 +277,13 @@ func (e *Engine) Run() {
 		e.problem("nobody", "root has no body: "+root.String(), token.Position{})
 		return
 	}
+	e.deadline = time.Now().Add(time.Duration(e.Cfg.MaxSeconds) * time.Second)
 	e.enterBlock(st, nil, root.Blocks[0])
 	for len(e.work) > 0 {
+		if e.States%512 == 0 && time.Now().After(e.deadline) {
+			e.problem("budget", fmt.Sprintf("time budget of %ds exceeded after %d states", e.Cfg.MaxSeconds, e.States), token.Position{})
+			return
+		}
 		s := e.work[len(e.work)-1]
 		e.work = e.work[:len(e.work)-1]
 		e.run(s)
@@ -369,10 +382,9 @@ func (e *Engine) enterBlock(st *State, from, to *ssa.BasicBlock) {
 	st.note(fmt.Sprintf("%s.b%d(%s)", fr.fn.Name(), to.Index, to.Comment), e.blockPos(to))
 	e.Trans++
 	k := st.key()
-	if e.visited[k] {
+	if !e.markVisited(k) {
 		return
 	}
-	e.visited[k] = true
 	e.States++
 	e.StatesAt[fmt.Sprintf("%s.b%d", fr.fn.Name(), to.Index)]++
 	if e.Cfg.DebugFn != "" && fr.fn.Name() == e.Cfg.DebugFn && to.Index == e.Cfg.DebugBlock {
@@ -404,6 +416,16 @@ func IVLoop(name string) (string, bool) {
 
 // Mon returns the current state of the i-th monitor.
 func (c *Ctx) Mon(i int) MState { return c.St.mon[i] }
+
+// markVisited records the state key (by digest); false if it was seen before.
+func (e *Engine) markVisited(k string) bool {
+	h := sha1.Sum([]byte(k))
+	if e.visited[h] {
+		return false
+	}
+	e.visited[h] = true
+	return true
+}
 
 // LoopID names a loop instance (call string + function + header block).
 func LoopID(ctx string, header *ssa.BasicBlock) string {
@@ -754,6 +776,7 @@ func (e *Engine) isVolatile(root *Term) bool {
 
 // Load reads memory.
 func (e *Engine) load(st *State, addr *Term, site string) *Term {
+	addr = e.concretiseAddr(st, addr)
 	root, path, ok := addrPath(addr)
 	if root.K == KAlloc {
 		if e.isVolatile(root) {
@@ -809,6 +832,7 @@ func elemBase(addr *Term) *Term {
 
 // store writes memory; reports whether the target is non-local (an effect).
 func (e *Engine) store(st *State, addr, val *Term) (nonLocal bool, volatile bool) {
+	addr = e.concretiseAddr(st, addr)
 	root, path, ok := addrPath(addr)
 	if root.K == KAlloc {
 		if e.isVolatile(root) {
@@ -842,6 +866,29 @@ func (e *Engine) store(st *State, addr, val *Term) (nonLocal bool, volatile bool
 	}
 	st.mem[addr] = val
 	return true, false
+}
+
+// concretiseAddr replaces, in addresses rooted at a local cell, index terms
+// that the facts pin to one value by that constant.
+func (e *Engine) concretiseAddr(st *State, addr *Term) *Term {
+	root := addrRoot(addr)
+	if root == nil {
+		return addr
+	}
+	if root.K == KSliceOf {
+		root = root.A[0]
+	}
+	if root.K != KAlloc {
+		return addr
+	}
+	return addr.Map(func(t *Term) *Term {
+		if t.K == KIndexAddr && !t.A[1].IsConstInt() {
+			if c, ok := e.concreteIndex(st, t.A[1]); ok {
+				return IndexAddr(t.A[0], c)
+			}
+		}
+		return nil
+	})
 }
 
 // Mem exposes a memory read for monitors (no side effects).
